@@ -1049,6 +1049,93 @@ func sequence(c *drv.Ctx, w *drv.Worker, seed int64, idx int, nops int, negative
 	return nil
 }
 
+// idleWatch looks for the refuting observation of the "before the volume reports itself idle" clause: while a POST raw
+// is in flight, the worker samples (level n, level n+1) at moments the instance reports idle by its own flags.
+func idleWatch(c *drv.Ctx, w *drv.Worker, seed int64, idx int) error {
+	r := rand.New(rand.NewSource(seed))
+	cl := &dvc.Client{W: w}
+	tag := fmt.Sprintf("idle%d", idx)
+	h, err := dvc.NewHist(cl, r, "c14"+tag)
+	if err != nil {
+		return err
+	}
+	L := 1 + idx%2
+	nb := [3]int{2, 2, 2}
+	if L == 2 {
+		nb = [3]int{4, 4, 2}
+	}
+	g := &labelmodel.Geom{BS: bsz, Org: [3]int{0, 0, 0}, NB: nb}
+	s := &seq{c: c, w: w, cl: cl, h: h, r: r, tag: tag, name: "seg" + tag, g: g, L: L, states: map[string]*labelmodel.State{},
+		dirty: map[string]int{}, lastOp: map[string]string{}, entries: map[uint64]map[string]bool{}, taint: map[string]bool{}, zeroWrite: map[string]string{}}
+	if err := cl.NewInstance(h.Root, "labelmap", s.name, map[string]string{"BlockSize": "32,32,32", "MaxDownresLevel": fmt.Sprint(L)}); err != nil {
+		return err
+	}
+	st := labelmodel.New(g)
+	s.states[h.Root] = st
+	d := g.Dim()
+	first := s.genBox(st, d, "voronoi")
+	s.log("MaxDownresLevel=%d grid=%v; POST raw of the whole grid (voronoi layout)", L, nb)
+	pr, err := w.Post(s.url(h.Root, "raw/0_1_2/"+cs(d)+"/0_0_0"), lmwire.EncodeVolume(first))
+	if err != nil {
+		return err
+	}
+	if !pr.OK() {
+		return fmt.Errorf("initial POST raw: %s", pr)
+	}
+	if err := w.Settle(); err != nil {
+		return err
+	}
+	second := s.genBox(st, d, "noise")
+	n := L - 1 // watch the last level pair: (L-1 -> L)
+	lo, ldim := s.levelRegion(n)
+	hi, hdim := s.levelRegion(n + 1)
+	var out struct {
+		Status  int    `json:"status"`
+		Resp    string `json:"resp"`
+		Samples []struct {
+			Lo []byte `json:"lo"`
+			Hi []byte `json:"hi"`
+		} `json:"samples"`
+		IdlePolls int `json:"idle_polls"`
+		BusyPolls int `json:"busy_polls"`
+	}
+	s.log("POST raw?mutate=true of the whole grid (noise layout) while sampling scale %d and %d at idle-reporting moments", n, n+1)
+	err = w.API("c14.idlewatch", map[string]interface{}{"uuid": h.Root, "name": s.name, "method": "POST",
+		"url": s.url(h.Root, "raw/0_1_2/"+cs(d)+"/0_0_0?mutate=true"), "body": lmwire.EncodeVolume(second),
+		"lo_url": s.url(h.Root, fmt.Sprintf("raw/0_1_2/%s/%s?scale=%d&supervoxels=true", cs(ldim), cs(lo), n)),
+		"hi_url": s.url(h.Root, fmt.Sprintf("raw/0_1_2/%s/%s?scale=%d&supervoxels=true", cs(hdim), cs(hi), n+1)), "max_samples": 4}, &out)
+	if err != nil {
+		return err
+	}
+	c.Count("idlewatch_runs", 1)
+	c.Count("idlewatch_polls_reporting_idle_during_the_write", out.IdlePolls)
+	c.Count("idlewatch_polls_reporting_busy_during_the_write", out.BusyPolls)
+	if out.Status != 200 {
+		return fmt.Errorf("watched POST raw: %d %s", out.Status, out.Resp)
+	}
+	for si, sm := range out.Samples {
+		lv, e1 := lmwire.DecodeVolume(sm.Lo, ldim[0]*ldim[1]*ldim[2])
+		hv, e2 := lmwire.DecodeVolume(sm.Hi, hdim[0]*hdim[1]*hdim[2])
+		if e1 != nil || e2 != nil {
+			continue
+		}
+		c.Count("idlewatch_samples", 1)
+		want, _ := labelmodel.Downres(lv, ldim)
+		i, nd := firstDiff(want, hv)
+		c.Case(fmt.Sprintf("%s|idlewatch|%d", tag, si), nd > 0 || distinctLabels(want) >= 2)
+		if nd > 0 {
+			c.Count("idlewatch_stale_samples", 1)
+			s.viol("idle-reported-while-level-stale|post-raw", fmt.Sprintf("while POST raw?mutate=true was in flight the instance reported idle (Updating=false, AnyScaleUpdating=false; %d idle polls, %d busy polls) and at that moment %d voxels of level %d were not the vote over level %d; first %s: level %d holds %d, vote %d",
+				out.IdlePolls, out.BusyPolls, nd, n+1, n, s.at(n+1, hdim, i), n+1, hv[i], want[i]), map[string]interface{}{"level": n + 1, "idle_polls": out.IdlePolls, "busy_polls": out.BusyPolls, "ndiff": nd})
+			break
+		}
+	}
+	if err := w.Settle(); err != nil {
+		return err
+	}
+	return nil
+}
+
 func run(c *drv.Ctx) error {
 	c.Rule("a sequence = one labelmap instance (32^3 blocks, MaxDownresLevel 1..3, grids of 2x2x2..4x4x2 blocks incl. grids straddling parent blocks) driven by POST blocks?downres=true and POST raw ingests, " +
 		"POST raw?mutate=true rewrites (single octant, all eight octants of a parent, checkerboard, random subsets; all-zero, solid, per-voxel noise and exact-tie layouts), split-supervoxel and split, interleaved with " +
@@ -1078,7 +1165,7 @@ func run(c *drv.Ctx) error {
 		negSeeds[i] = c.Rand.Int63()
 	}
 	var wg sync.WaitGroup
-	errs := make(chan error, nw+2)
+	errs := make(chan error, nw+3)
 	for wi := 0; wi < nw; wi++ {
 		wg.Add(1)
 		go func(wi int) {
@@ -1129,6 +1216,33 @@ func run(c *drv.Ctx) error {
 			w.Kill()
 			if err != nil {
 				errs <- fmt.Errorf("negative-coordinate sequence %d: %v", i, err)
+				return
+			}
+		}
+	}()
+	// idle-report watch (own worker: the in-flight write must not overlap other sequences' settles)
+	nidle := c.N(4, 16)
+	idleSeeds := make([]int64, nidle)
+	for i := range idleSeeds {
+		idleSeeds[i] = c.Rand.Int63()
+	}
+	wg.Add(1)
+	go func() {
+		defer wg.Done()
+		dir, err := c.NewDataDir("c14idle", drv.ConfOpts{})
+		if err != nil {
+			errs <- err
+			return
+		}
+		w, err := drv.StartWorker(bin, dir, drv.StartOpts{})
+		if err != nil {
+			errs <- err
+			return
+		}
+		defer w.Kill()
+		for i := 0; i < nidle; i++ {
+			if err := idleWatch(c, w, idleSeeds[i], i); err != nil {
+				errs <- fmt.Errorf("idle watch %d: %v; stderr: %s", i, err, drv.Trunc(drv.FatalInStderr(w.Stderr()), 400))
 				return
 			}
 		}
